@@ -37,7 +37,7 @@ VALUES = {
     'f16': [0.0, -0.0, 5.960464477539063e-08, 1.5, 65504.0, float('inf'), float('-inf'), 1.0],
     'f32': [0.0, -0.0, 1.401298464324817e-45, 1.5, 3.4028234663852886e+38, float('inf'), float('-inf'), -123.25],
     'f64': [0.0, -0.0, SUB, 1.5, 1.7976931348623157e+308, float('inf'), float('-inf'), 0.1],
-    'str': [b'', b'a', b'ab', b'abc', b'\x00\xff{}', b'hello'],
+    'str': [b'', b'a', b'ab', b'abc', b'\x00\xff{}', 'text', '21\u00b0C', '\u03a9\u20ac', b'hello'],
     'bits': [[True], [False, True, True], [True] * 8, [bool(i % 3) for i in range(9)], [bool((0xA5C3 >> i) & 1) for i in range(16)]],
 }
 TYPES = list(VALUES)
@@ -47,7 +47,13 @@ ADD = {'u8': 'add_8bit_uint', 'i8': 'add_8bit_int', 'u16': 'add_16bit_uint', 'i1
 DEC = {k: v.replace('add_', 'decode_') for k, v in ADD.items()}
 
 
+def wire(t, v):
+    """a text string travels as its UTF-8 bytes"""
+    return v.encode('utf-8') if t == 'str' and isinstance(v, str) else v
+
+
 def same(typ, a, b):
+    a, b = wire(typ, a), wire(typ, b)
     if typ.startswith('f'):
         fm = '!' + rp.FMT[typ]
         try:
@@ -65,7 +71,7 @@ def decode_all(dec, seq):
     out = []
     for t, v in seq:
         if t == 'str':
-            out.append(dec.decode_string(len(v)))
+            out.append(dec.decode_string(len(wire(t, v))))
         elif t == 'bits':
             bits = []
             for _ in range((len(v) + 7) // 8):
@@ -77,6 +83,8 @@ def decode_all(dec, seq):
 
 
 def jv(v):
+    if isinstance(v, str):
+        return 'text:' + v
     if isinstance(v, float):
         return struct.pack('!d', v).hex()
     if isinstance(v, bytes):
@@ -98,11 +106,12 @@ def one(acc, seq, bo, wo):
     except Exception as e:   # noqa
         acc.violation('C19/%s/%s/build/raise:%s' % (seq[0][0], tag, type(e).__name__), wit, repr(e)[:120], tag)
         return
-    exp = rp.image(seq, bo, wo)
+    rseq = tuple((t, wire(t, v)) for t, v in seq)
+    exp = rp.image(rseq, bo, wo)
     if raw != exp:
         # attribute to the first item whose slice differs
         pos, typ = 0, seq[-1][0]
-        for t, v in seq:
+        for t, v in rseq:
             ln = len(rp.item_bytes(t, v, bo, wo))
             if raw[pos:pos + ln] != exp[pos:pos + ln]:
                 typ = t
@@ -181,7 +190,7 @@ def replay(w):
         if t.startswith('f'):
             v = struct.unpack('!d', bytes.fromhex(v))[0]
         elif t == 'str':
-            v = bytes.fromhex(v)
+            v = v[5:] if v.startswith('text:') else bytes.fromhex(v)
         seq.append((t, v))
     one(acc, tuple(seq), w['byteorder'], w['wordorder'])
     return bool(acc.violations), '\n'.join('%s: %s' % (v['sig'], v['msg']) for v in acc.violations) or 'no violation'
